@@ -9,10 +9,14 @@ mode `inst` (a real `haproxy.Instance` with simulated sockets, driven op by op):
 
 ops: `aX.C.S` AcquireBackend(name X) + fill (cfg C = 4*conf+epv, S empty slots) when new, `rX.Y..`
 Backends.RemoveAll, `HX.C` AcquireHost + fill when new, `RX.Y..` Hosts.RemoveAll, `TV` tcp service
-content V, `F` config.Clear(), `u[:fault]` HAProxyUpdate, `q[:fault]` one run of the reload queue
-worker.  faults: `tm fm bm cl mc sh<k> rs rr ad<i>+<j>.. ab<i>+<j>..`.
+content V, `F` config.Clear(), `GL.H` custom responses of the global config (Lua based content L, HAProxy
+based content H, 0 = none), `u[:fault]` HAProxyUpdate, `q[:fault]` one run of the reload queue
+worker.  faults: `tm fm bm cl ef lr mc sh<k> rs rr ad<i>+<j>.. ab<i>+<j>..` (`ef` the errorfile, `lr`
+responses.lua).
 One observation per u/q op:
-`e<err>|items|hosts|tcp want|file=ents,..|maps|tcpmap.tcpcrt.tcpmain|running backends|running maps|running tcp|pending`.
+`e<err>|items|hosts|tcp want|file=ents,..|maps|tcpmap.tcpcrt.tcpmain|running backends|running maps|running tcp|pending|`
+`global lua.ha|errorfile.lua.cfg on disk|errorfile.lua.cfg as loaded` (`-` = no such file; cfg: 1 = haproxy.cfg
+names the errorfile).
 
 mode `world` (the world runner with a fault script): see `handleWorld`.
 -/
@@ -57,6 +61,15 @@ def parseEv (p : Nat) (s : String) : Option (Ev p) :=
   else if s.startsWith "T" then rest.toNat?.map .tcp
   else none
 
+def parseREv (p : Nat) (s : String) : Option (REv p) :=
+  if s = "u:ef" then some .updHa
+  else if s = "u:lr" then some .updLua
+  else if s.startsWith "G" then
+    match ((s.drop 1).toString).splitOn "." with
+    | [l, h] => do some (.glob { lua := ← l.toNat?, ha := ← h.toNat? })
+    | _ => none
+  else (parseEv p s).map .ev
+
 def showEnt (e : Ent) : String := s!"{e.name}:{e.cfg}:{e.slots}"
 def showEnts (l : List Ent) : String := if l.isEmpty then "-" else "+".intercalate (l.map showEnt)
 def showPairs (l : List (Nat × Nat)) : String :=
@@ -75,14 +88,25 @@ structure IObs where
   rmaps : List (Nat × Nat)
   rtcp : Nat × Nat × Nat
   pending : Bool
+  glob : Glob := {}
+  rdisk : RFiles := {}
+  rrun : RFiles := {}
 deriving DecidableEq
 
 def showTcp (t : Nat × Nat × Nat) : String := s!"{t.1}.{t.2.1}.{t.2.2}"
 
+def showOptNat : Option Nat → String
+  | none => "-"
+  | some v => toString v
+
+def showRFiles (d : RFiles) : String :=
+  s!"{showOptNat d.ha}.{showOptNat d.lua}.{match d.main with | none => "-" | some true => "1" | some false => "0"}"
+
 def showIObs (o : IObs) : String :=
   "|".intercalate [if o.err then "e1" else "e0", showEnts o.items, showPairs o.hosts, toString o.want,
     ",".intercalate (o.files.map fun f => s!"{f.1}={showEnts f.2}"), showPairs o.maps, showTcp o.tcp,
-    showEnts o.rback, showPairs o.rmaps, showTcp o.rtcp, if o.pending then "1" else "0"]
+    showEnts o.rback, showPairs o.rmaps, showTcp o.rtcp, if o.pending then "1" else "0",
+    s!"{o.glob.lua}.{o.glob.ha}", showRFiles o.rdisk, showRFiles o.rrun]
 
 def mapsOf {p : Nat} (m : Fin p → Option (Nat × Bool)) : List (Nat × Nat) :=
   (List.finRange p).filterMap fun x => (m x).map fun e => (x.val, e.1)
@@ -101,11 +125,16 @@ def iobsOf {p : Nat} (sh : Sh p) (r : Res p) : IObs :=
     rtcp := (w.run.tcpMap, w.run.tcpCrt, w.run.tcpMain)
     pending := w.pending }
 
-def trace {p : Nat} (o : Opt) (sh : Sh p) : FW p → List (Ev p) → List IObs
+def iobsOfR {p : Nat} (sh : Sh p) (r : RRes p) : IObs :=
+  { iobsOf sh { w := r.w.fw, err := r.err } with glob := r.w.glob, rdisk := r.w.disk, rrun := r.w.run }
+
+def trace {p : Nat} (ro : ROpt) (sh : Sh p) : RW p → List (REv p) → List IObs
   | _, [] => []
-  | w, .upd f :: es => let r := upd o sh f w; iobsOf sh r :: trace o sh r.w es
-  | w, .qrun f :: es => let r := qrun sh f w; iobsOf sh r :: trace o sh r.w es
-  | w, e :: es => trace o sh (step o sh w e) es
+  | w, .ev (.upd f) :: es => let r := updR ro sh (.base f) w; iobsOfR sh r :: trace ro sh r.w es
+  | w, .ev (.qrun f) :: es => let r := qrunR ro sh f w; iobsOfR sh r :: trace ro sh r.w es
+  | w, .updHa :: es => let r := updR ro sh .haResp w; iobsOfR sh r :: trace ro sh r.w es
+  | w, .updLua :: es => let r := updR ro sh .luaResp w; iobsOfR sh r :: trace ro sh r.w es
+  | w, e :: es => trace ro sh (stepR ro sh w e) es
 
 def parseEnt (s : String) : Option Ent :=
   match s.splitOn ":" with
@@ -126,17 +155,33 @@ def parseTcp (s : String) : Option (Nat × Nat × Nat) :=
   | [a, b, c] => do some (← a.toNat?, ← b.toNat?, ← c.toNat?)
   | _ => none
 
+def parseOptNat (s : String) : Option (Option Nat) :=
+  if s = "-" then some none else s.toNat?.map some
+
+def parseRFiles (s : String) : Option RFiles :=
+  match s.splitOn "." with
+  | [a, b, c] => do
+    let m ← (if c = "-" then some none else if c = "1" then some (some true) else if c = "0" then some (some false) else none)
+    some { ha := ← parseOptNat a, lua := ← parseOptNat b, main := m }
+  | _ => none
+
+def parseGlob (s : String) : Option Glob :=
+  match s.splitOn "." with
+  | [a, b] => do some { lua := ← a.toNat?, ha := ← b.toNat? }
+  | _ => none
+
 def parseIObs (s : String) : Option IObs :=
   match s.splitOn "|" with
-  | [e, i, h, w, f, m, t, rb, rm, rt, pe] => do
+  | [e, i, h, w, f, m, t, rb, rm, rt, pe, g, rd, rr] => do
     some { err := e == "e1", items := ← parseEnts i, hosts := ← parsePairs h, want := ← w.toNat?
            files := ← parseList parseFile f ",", maps := ← parsePairs m, tcp := ← parseTcp t
-           rback := ← parseEnts rb, rmaps := ← parsePairs rm, rtcp := ← parseTcp rt, pending := pe == "1" }
+           rback := ← parseEnts rb, rmaps := ← parsePairs rm, rtcp := ← parseTcp rt, pending := pe == "1"
+           glob := ← parseGlob g, rdisk := ← parseRFiles rd, rrun := ← parseRFiles rr }
   | _ => none
 
 /-- the parts of the configuration, in the order `HAProxyUpdate` writes them -/
 inductive Part where
-  | tcpMap | frontMaps | tcpCrt | cfg
+  | tcpMap | frontMaps | tcpCrt | resp | cfg
 deriving DecidableEq
 
 /-- Spec on one observation: which parts do not hold the in-memory model (`stale`), which ones
@@ -152,13 +197,17 @@ def partState (files : Nat) (shardOf : Nat → Nat) (o : IObs) (pt : Part) : Boo
   | .tcpCrt =>
     let stale := o.want != 0 && o.tcp.2.1 != o.want
     (stale, !stale && o.want != 0 && o.rtcp.2.1 != o.tcp.2.1)
+  | .resp =>
+    -- errorfiles/<code>.http (when one is configured) and lua/responses.lua = rendering of the global config
+    let stale := o.rdisk.lua != some o.glob.lua || (o.glob.ha != 0 && o.rdisk.ha != some o.glob.ha)
+    (stale, !stale && (o.rrun.lua != (loadR o.rdisk).lua || o.rrun.ha != (loadR o.rdisk).ha))
   | .cfg =>
     let c05 : C05.Obs := { items := o.items, add := [], del := [], changed := [], disk := o.files }
-    let stale := (diskClause files shardOf c05).isSome || o.tcp.2.2 != o.want
+    let stale := (diskClause files shardOf c05).isSome || o.tcp.2.2 != o.want || o.rdisk.main != some (o.glob.ha != 0)
     let onDisk := (o.files.map (·.2)).flatten
-    (stale, !stale && (onDisk.any (fun e => !o.rback.contains e) || o.rtcp.2.2 != o.tcp.2.2))
+    (stale, !stale && (onDisk.any (fun e => !o.rback.contains e) || o.rtcp.2.2 != o.tcp.2.2 || o.rrun.main != o.rdisk.main))
 
-def allParts : List Part := [.tcpMap, .frontMaps, .tcpCrt, .cfg]
+def allParts : List Part := [.tcpMap, .frontMaps, .tcpCrt, .resp, .cfg]
 
 /-- the property on one settled observation (a fault-free retry with an empty batch was just
 done): `Disk = render model ∧ Running = load Disk`.  `lastReloadFault`: the last injected fault was
@@ -167,12 +216,15 @@ def settledClause (files : Nat) (shardOf : Nat → Nat) (lastReloadFault : Bool)
   let st := allParts.map fun pt => (pt, partState files shardOf o pt)
   let stale := st.filter fun x => x.2.1
   let unloaded := st.filter fun x => x.2.2
-  if o.err then some "retry-without-fault-fails"
+  if o.err then
+    -- the fault-free retry fails; haproxy.cfg names a response file that was never written: every reload will
+    some (if !loadable o.rdisk then "reload-fails-forever-cfg-names-missing-file" else "retry-without-fault-fails")
   else if !stale.isEmpty && !unloaded.isEmpty then some "half-written-files-after-fault"
   else match stale.head? with
     | some (.tcpMap, _) => some "change-lost-after-failed-map-write"
     | some (.frontMaps, _) => some "change-lost-after-failed-map-write"
     | some (.tcpCrt, _) => some "change-lost-after-failed-crtlist-write"
+    | some (.resp, _) => some "change-lost-after-failed-response-write"
     | some (.cfg, _) => some "change-lost-after-failed-cfg-write"
     | none =>
       if !unloaded.isEmpty then
@@ -180,15 +232,30 @@ def settledClause (files : Nat) (shardOf : Nat → Nat) (lastReloadFault : Bool)
       else if o.pending then some "reload-left-pending"
       else none
 
-def Ev.isRun {p : Nat} : Ev p → Bool
-  | .upd _ => true
-  | .qrun _ => true
+def REv.isUpd {p : Nat} : REv p → Bool
+  | .ev (.upd _) => true
+  | .updHa => true
+  | .updLua => true
   | _ => false
 
-def Ev.fault {p : Nat} : Ev p → Fault
-  | .upd f => f
-  | .qrun f => f
-  | _ => .none
+def REv.isQrun {p : Nat} : REv p → Bool
+  | .ev (.qrun _) => true
+  | _ => false
+
+def REv.isRun {p : Nat} (e : REv p) : Bool := e.isUpd || e.isQrun
+
+/-- no fault is injected into this run -/
+def REv.clean {p : Nat} : REv p → Bool
+  | .ev (.upd f) => f == .none
+  | .ev (.qrun f) => f == .none
+  | .updHa => false
+  | .updLua => false
+  | _ => true
+
+def REv.reloadFault {p : Nat} : REv p → Bool
+  | .ev (.upd f) => f.isReload
+  | .ev (.qrun f) => f.isReload
+  | _ => false
 
 /-- settled points of a history ("a later reconciliation (the scheduled retry or the next event) brings
 the files on disk and the running HAProxy to the state of the cluster").  Direct mode: a fault-free `u` right
@@ -197,7 +264,7 @@ arrived in between (the next event).  Queue mode: a fault-free `q` right after a
 right after a `u`/`q` (the reconcile retry and the queue worker have both run, nothing new arrived).
 `prev2 prev1`: the two ops before; `lastFaulty`: the most recent run had a fault injected. -/
 def specTraceF {p : Nat} (queue : Bool) (files : Nat) (shardOf : Nat → Nat) :
-    Option (Ev p) → Option (Ev p) → Bool → Bool → List (Ev p) → List IObs → Option String
+    Option (REv p) → Option (REv p) → Bool → Bool → List (REv p) → List IObs → Option String
   | _, _, _, _, [], _ => none
   | _, _, _, _, _, [] => none
   | p2, p1, lastRF, lastFaulty, e :: es, os =>
@@ -205,32 +272,32 @@ def specTraceF {p : Nat} (queue : Bool) (files : Nat) (shardOf : Nat → Nat) :
     match os with
     | [] => none
     | o :: os' =>
-      let clean := e.fault == .none
+      let clean := e.clean
       let prevRun := match p1 with | some x => x.isRun | none => false
       let settled :=
         if queue then
-          (match e with | .qrun _ => true | _ => false) && clean &&
-          (match p1 with | some (.upd .none) => true | _ => false) &&
+          e.isQrun && clean &&
+          (match p1 with | some x => x.isUpd && x.clean | none => false) &&
           (match p2 with | some x => x.isRun | none => false)
-        else (match e with | .upd _ => true | _ => false) && clean && (prevRun || lastFaulty)
-      let lastRF' := if clean then lastRF else e.fault.isReload
+        else e.isUpd && clean && (prevRun || lastFaulty)
+      let lastRF' := if clean then lastRF else e.reloadFault
       match (if settled then settledClause files shardOf lastRF o else none) with
       | some c => some c
       | none => specTraceF queue files shardOf p1 (some e) lastRF' (!clean) es os'
 
 def specTrace {p : Nat} (queue : Bool) (files : Nat) (shardOf : Nat → Nat)
-    (p2 p1 : Option (Ev p)) (lastRF : Bool) (es : List (Ev p)) (os : List IObs) : Option String :=
+    (p2 p1 : Option (REv p)) (lastRF : Bool) (es : List (REv p)) (os : List IObs) : Option String :=
   specTraceF queue files shardOf p2 p1 lastRF false es os
 
 /-- generator discipline the model relies on (besides C05's): while a host map is referenced a host
 exists (an emptied map file is not rewritten by the real code, C05 counts referenced files only) -/
-def hostsNeverEmptied {p : Nat} (o : Opt) (sh : Sh p) : FW p → List (Ev p) → Bool
+def hostsNeverEmptied {p : Nat} (ro : ROpt) (sh : Sh p) : RW p → List (REv p) → Bool
   | _, [] => true
   | w, e :: es =>
-    let w' := step o sh w e
-    (match e with
-      | .upd _ => !(w.mainHosts || hasHosts w.h) || hasHosts w'.h || !(anyFin fun x => (w'.h.maps x).isSome)
-      | _ => true) && hostsNeverEmptied o sh w' es
+    let w' := stepR ro sh w e
+    (if e.isUpd then
+        !(w.fw.mainHosts || hasHosts w.fw.h) || hasHosts w'.fw.h || !(anyFin fun x => (w'.fw.h.maps x).isSome)
+      else true) && hostsNeverEmptied ro sh w' es
 
 def handleInst (q n shards ops : String) (impl : String) : Verdict :=
   match n.toNat?, parseList parseNat? shards "." with
@@ -238,30 +305,31 @@ def handleInst (q n shards ops : String) (impl : String) : Verdict :=
     let p := shl.length
     let shardOfN : Nat → Nat := fun i => shl.getD i 0
     let sh : Sh p := { n := n, shardOf := fun x => shardOfN x.val }
-    let o : Opt := { queue := q == "1" }
-    match parseList (parseEv p) ops "," with
+    let ro : ROpt := { o := { queue := q == "1" } }
+    match parseList (parseREv p) ops "," with
     | none => bad "ops"
     | some evs =>
       if impl.startsWith "PANIC" then { model := "-", agree := false, oracle := some "panic-in-instance-update" } else
-      let tr := trace o sh {} evs
+      let tr := trace ro sh {} evs
       let m := ";".intercalate (tr.map showIObs)
       match (impl.splitOn ";").mapM parseIObs with
       | none => { model := m, agree := false, oracle := some "unparsable-implementation-output" }
       | some obs =>
-        let disc := allOk o sh {} evs && hostsNeverEmptied o sh {} evs
+        let disc := allOkR ro sh {} evs && hostsNeverEmptied ro sh {} evs
         { model := m, agree := m == impl
-          oracle := if disc then specTrace o.queue sh.files shardOfN none none false evs obs else none
-          trivial := !disc || !(evs.any fun e => e.isRun && e.fault != .none) }
+          oracle := if disc then specTrace ro.o.queue sh.files shardOfN none none false evs obs else none
+          trivial := !disc || !(evs.any fun e => e.isRun && !e.clean) }
   | _, _ => bad "args"
 
 /-! ### world mode
 
-  `C12 world s<shards> <script> <op> <op> ... => T:<step>;..|E:<e>,..|d=<files>|u=<files>|ut=<files>|tbl=..|tblt=..|snap=..|tf=..`
+  `C12 world s<shards> <script> <op> <op> ... => T:<step>;..|E:<e>,..|d=<files>|u=<files>|ut=<files>|tbl=..|tblt=..|snap=..|tf=..|rf=<files>|mf=<files>`
 
 see harness/cmd/hv/c12.go.  The model replays the twin's facts with the fault script (`wstep`) and
 predicts the error flag of every reconcile and whether the history ends with nothing owed; the
 Spec is evaluated on the comparison with the twin (semantic normal form, files read by HAProxy,
-server table). -/
+server table, and byte for byte the custom response files haproxy.cfg names: `rf=` the ones that differ
+from the twin's, `mf=` the ones that do not exist). -/
 
 def parseFileFact (s : String) : Option FileFact :=
   match s.splitOn "@" with
@@ -325,7 +393,9 @@ def handleWorld (script : String) (ops : List String) (impl : String) : Verdict 
       let uNames := if u == "-" then [] else u.splitOn "+"
       let utNames := if ut == "-" then [] else ut.splitOn "+"
       let unl := uNames.filter fun n => !utNames.contains n
-      let implConv := snap == "eq" && (tbl == "eq" || tblt != "eq") && unl.isEmpty
+      let rf := (field fs "rf=").getD "-"
+      let mf := (field fs "mf=").getD "-"
+      let implConv := snap == "eq" && (tbl == "eq" || tblt != "eq") && unl.isEmpty && rf == "-"
       let m := s!"E:{es}|conv={if st.converged then 1 else 0}" ++ (if st.unknown then s!"|known={st.known}" else "")
       -- error flags: all of them, or the ones before the facts stop describing the faulty controller;
       -- a history the model sees converged must be converged
@@ -347,7 +417,10 @@ def handleWorld (script : String) (ops : List String) (impl : String) : Verdict 
       -- a reconcile without an injected fault returned an error
       let spurious := (eImpl.zip faults).any fun x => x.1 == "1" && x.2 == .none
       let oracle : Option String :=
-        if spurious then some "update-keeps-failing-after-failed-map-write"
+        if spurious then
+          -- haproxy.cfg names a response file that was never written: no reload will ever succeed
+          some (if mf != "-" then "reload-fails-forever-cfg-names-missing-file"
+                else "update-keeps-failing-after-failed-map-write")
         else if !retried then none
         else if stale && !unl.isEmpty then some "half-written-files-after-fault"
         else if stale then
@@ -355,6 +428,7 @@ def handleWorld (script : String) (ops : List String) (impl : String) : Verdict 
           | 0 => some "change-lost-after-failed-map-write"
           | 1 => some "change-lost-after-failed-crtlist-write"
           | _ => some "change-lost-after-failed-cfg-write"
+        else if rf != "-" then some "change-lost-after-failed-response-write"
         else if !unl.isEmpty || (tbl != "eq" && tblt == "eq") then
           some (if lastIsReload then "reload-not-retried-after-failed-reload" else "reload-skipped-after-failed-write")
         else none
